@@ -195,7 +195,9 @@ class NetCDFWrite(IOWrite):
 
         return array.flatten()
 
-    def _write_attributes(self, parent, ncvar, extra=None, omit=()):
+    def _write_attributes(
+        self, parent, ncvar, extra=None, omit=(), fill_value_set=False
+    ):
         """Write netCDF attributes to the netCDF file.
 
         :Parameters:
@@ -207,6 +209,12 @@ class NetCDFWrite(IOWrite):
             extra: `dict`, optional
 
             omit: sequence of `str`, optional
+
+            fill_value_set: `bool`, optional
+                If True then the ``_FillValue`` attribute was set when
+                the netCDF variable was created, and so is not set
+                again. It is still included in the returned
+                dictionary.
 
         :Returns:
 
@@ -243,7 +251,14 @@ class NetCDFWrite(IOWrite):
                 dtype = g["datatype"].get(data.dtype, data.dtype)
                 netcdf_attrs[attr] = np.array(netcdf_attrs[attr], dtype=dtype)
 
-        skip_set_fill_value = False
+        # The _FillValue attribute can not, in general, be set on an
+        # existing variable: in a NETCDF4_CLASSIC file, for instance,
+        # that is refused once any data have been written to the
+        # file.
+        skip_set_fill_value = fill_value_set and "_FillValue" in netcdf_attrs
+        if skip_set_fill_value:
+            _FillValue = netcdf_attrs["_FillValue"]
+
         if g["post_dry_run"] and parent is not None:
             # Manage possibly pre-existing fill values:
             data = self.implementation.get_data(parent, None)
@@ -256,23 +271,22 @@ class NetCDFWrite(IOWrite):
                         # that already applies to the already-set data,
                         # so we should not (and indeed can't) set it again.
                         skip_set_fill_value = True
+                        _FillValue = data.get_fill_value()
                     else:  # can't have incompatible FV to the existing data
                         raise ValueError(
                             "Cannot set an incompatible fill value on "
                             "data with a fill value already defined."
                         )
 
-            if skip_set_fill_value and "_FillValue" in netcdf_attrs:
-                del netcdf_attrs["_FillValue"]
+        if skip_set_fill_value and "_FillValue" in netcdf_attrs:
+            del netcdf_attrs["_FillValue"]
 
         if not g["dry_run"]:
             g["nc"][ncvar].setncatts(netcdf_attrs)
 
         if skip_set_fill_value:
             # Re-add as known attribute since this FV is already set
-            netcdf_attrs["_FillValue"] = self.implementation.get_data(
-                parent, None
-            ).get_fill_value()
+            netcdf_attrs["_FillValue"] = _FillValue
 
         return netcdf_attrs
 
@@ -2743,14 +2757,42 @@ class NetCDFWrite(IOWrite):
         # Find the fill value - the value that the variable's data get
         # filled before any data is written. if the fill value is
         # False then the variable is not pre-filled.
+        #
+        # The _FillValue attribute is defined when the variable is
+        # created, because it can not, in general, be defined
+        # afterwards (in a NETCDF4_CLASSIC file that is refused once
+        # any data have been written to the file).
         # ------------------------------------------------------------
-        if (
-            omit_data or fill or g["post_dry_run"]
-        ):  # or append mode's appending iteration
+        fill_value = None
+        fill_value_set = False
+        if "_FillValue" not in omit and "_FillValue" not in extra:
             fill_value = self.implementation.get_property(
                 cfvar, "_FillValue", None
             )
-        else:
+
+        if fill_value is not None and data is not None:
+            dtype = self.implementation.get_data(cfvar).dtype
+            if dtype.kind in "SU":
+                # String data
+                if isinstance(fill_value, bytes):
+                    fill_value = fill_value.decode()
+
+                fill_value = str(fill_value)
+                if datatype == "S1" and len(fill_value) != 1:
+                    raise ValueError(
+                        f"Can't write {cfvar!r} to a netCDF character "
+                        f"variable with _FillValue {fill_value!r}: A "
+                        "single character is required"
+                    )
+            else:
+                # Make sure that the _FillValue has the same data type
+                # as the data
+                fill_value = np.array(
+                    fill_value, dtype=g["datatype"].get(dtype, dtype)
+                )
+
+            fill_value_set = True
+        elif not (omit_data or fill or g["post_dry_run"]):
             fill_value = None
 
         if data_variable:
@@ -2848,7 +2890,11 @@ class NetCDFWrite(IOWrite):
         # Write attributes to the netCDF variable
         # ------------------------------------------------------------
         attributes = self._write_attributes(
-            cfvar, ncvar, extra=extra, omit=omit
+            cfvar,
+            ncvar,
+            extra=extra,
+            omit=omit,
+            fill_value_set=fill_value_set,
         )
 
         # ------------------------------------------------------------
